@@ -172,3 +172,17 @@ Example C17_filter_mask_nonvacuous :
   let mask := create_filter_mask ["work"; "health"; "_period"] sf vi grids None (Some [("_period", scalar 0%Q)]) in
   shape mask = [3; 2]%nat /\ map truthy (data mask) = [true; false; true; true; true; true].
 Proof. vm_compute. split; reflexivity. Qed.
+
+(* ---- the axes of the mask, when model.grids follows variable_info (C05_code_grids_follow_variable_info) ------------------------------ *)
+From LCM Require Import Proofs.C18_VarInfo Proofs.C17_MaskAxes.
+(* the mask's axes are the filter-restricted variables in the order of variable_info; for the variable_info of a model: the restricted    *)
+(* states, then the restricted choices — the canonical order the Spec's filter mask is tabulated in                                        *)
+Theorem C17_code_mask_axes_are_the_restricted_variables :
+  (forall (vi : list varinfo) (grids : list (string * list Q)),
+     NoDup (map vname vi) -> map fst grids = map vname vi ->
+     fm_axis vi grids None = map vname (filter (fun v => is_sparse v) vi)) /\
+  (forall (rs rc dst dch cst cch : list (string * grid)) (grids : list (string * list Q)),
+     NoDup (map vname (vi_sparse rs rc dst dch cst cch)) -> map fst grids = map vname (vi_sparse rs rc dst dch cst cch) ->
+     fm_axis (vi_sparse rs rc dst dch cst cch) grids None = (map fst rs ++ map fst rc)%list).
+Proof. split; [exact mask_axes_are_the_sparse_variables|exact mask_axes_of_a_model]. Qed.
+Print Assumptions C17_code_mask_axes_are_the_restricted_variables.
